@@ -67,6 +67,46 @@ theorem others_have_no_names (t : TyExpr) (n : Nat) (w : W) :
   refine ⟨?_, ?_, ?_, ?_, ?_, ?_⟩
   all_goals simp [typeInfo, Build.ofDef, lits, pathLits, Build.tupleNew]
 
+theorem extracted_params_ok : Extracted.ImplTable.typeParams = Expected.ImplTable.typeParams := rfl
+
+def paramRow (target : Str) : Option (List Str) := (Expected.ImplTable.typeParams.find? (·.1 == target)).map (·.2)
+
+/-- **the model's type parameters are the source's `type_params![..]`**: their names are the macro's arguments, in order, and each
+    stands for the generic argument of that name -/
+theorem params_are_source (t e : TyExpr) :
+    ((typeInfo true (.option t)).map (fun d => d.params.map (·.name)) = paramRow C16.iOption ∧
+      (typeInfo true (.option t)).map (fun d => d.params.map (·.ty)) = some [some t]) ∧
+    ((typeInfo true (.result t e)).map (fun d => d.params.map (·.name)) = paramRow C16.iResult ∧
+      (typeInfo true (.result t e)).map (fun d => d.params.map (·.ty)) = some [some t, some e]) ∧
+    ((typeInfo true (.cow t)).map (fun d => d.params.map (·.name)) = paramRow C16.iCow ∧
+      (typeInfo true (.cow t)).map (fun d => d.params.map (·.ty)) = some [some t]) ∧
+    ((typeInfo true (.btreeMap t e)).map (fun d => d.params.map (·.name)) = paramRow C16.iBTreeMap ∧
+      (typeInfo true (.btreeMap t e)).map (fun d => d.params.map (·.ty)) = some [some t, some e]) ∧
+    ((typeInfo true (.btreeSet t)).map (fun d => d.params.map (·.name)) = paramRow C16.iBTreeSet ∧
+      (typeInfo true (.btreeSet t)).map (fun d => d.params.map (·.ty)) = some [some t]) ∧
+    ((typeInfo true (.binaryHeap t)).map (fun d => d.params.map (·.name)) = paramRow C16.iBinaryHeap ∧
+      (typeInfo true (.binaryHeap t)).map (fun d => d.params.map (·.ty)) = some [some t]) ∧
+    ((typeInfo true (.range t)).map (fun d => d.params.map (·.name)) = paramRow C16.iRange ∧
+      (typeInfo true (.range t)).map (fun d => d.params.map (·.ty)) = some [some t]) ∧
+    ((typeInfo true (.rangeIncl t)).map (fun d => d.params.map (·.name)) = paramRow C16.iRangeIncl ∧
+      (typeInfo true (.rangeIncl t)).map (fun d => d.params.map (·.ty)) = some [some t]) := by
+  refine ⟨⟨?_, ?_⟩, ⟨?_, ?_⟩, ⟨?_, ?_⟩, ⟨?_, ?_⟩, ⟨?_, ?_⟩, ⟨?_, ?_⟩, ⟨?_, ?_⟩, ⟨?_, ?_⟩⟩
+  all_goals simp [typeInfo, mk, tp]
+  all_goals decide
+
+/-- eight impls use `type_params!`; every other built-in definition has no type parameters -/
+theorem param_rows : Expected.ImplTable.typeParams.length = 8 := by decide
+
+theorem others_have_no_params (t : TyExpr) (n : Nat) (w : W) (d : Bool) :
+    (typeInfo d .duration).map (·.params) = some [] ∧ (typeInfo d (.phantom t)).map (·.params) = some [] ∧
+    (typeInfo d (.nonZeroU w)).map (·.params) = some [] ∧ (typeInfo d (.nonZeroI w)).map (·.params) = some [] ∧
+    (typeInfo d .lsb0).map (·.params) = some [] ∧ (typeInfo d .msb0).map (·.params) = some [] ∧
+    (typeInfo d (.slice t)).map (·.params) = some [] ∧ (typeInfo d (.array n t)).map (·.params) = some [] ∧
+    (typeInfo d (.compact t)).map (·.params) = some [] ∧ (typeInfo d (.uint w)).map (·.params) = some [] ∧
+    (typeInfo d .tuple0).map (·.params) = some [] := by
+  refine ⟨?_, ?_, ?_, ?_, ?_, ?_, ?_, ?_, ?_, ?_, ?_⟩
+  all_goals simp [typeInfo, mk, Build.ofDef]
+
 /-! non-vacuity -/
 example : isPhantom TyExpr.bool = false ∧ row C16.iOption = some ([sOption, sNone, sSome], [0, 1]) ∧
     row C16.iLsb0 = some ([sLsb0, [98, 105, 116, 118, 101, 99, 58, 58, 111, 114, 100, 101, 114]], []) := by decide
